@@ -18,7 +18,10 @@ Streams (implementation = harness/src/bin/loud.rs on the crate built from the tr
             output: unwritable)
   real      the customasm binary in scratch directories under .cache/c03: directed corpus, mutants, option/format
             combinations, and I/O faults (missing file, directory in place of a file, missing parent directory, path
-            through a file, directory in place of the output; chmod 000 / read-only directory when not running as root)
+            through a file, directory in place of the output; chmod 000 / read-only directory when not running as root),
+            unwritable standard streams (stdout = /dev/full or a pipe nobody reads, with and without a requested `-p`
+            printout; stderr = /dev/full on failing runs) and arguments that are not valid UTF-8 (input name, output name,
+            define, format)
 """
 import os, json, re, time, shutil
 from concurrent.futures import ThreadPoolExecutor
@@ -31,18 +34,19 @@ RULE = ("library: every tests/**/*.asm entry unmutated + token-level mutants (1.
         "switches, --debug-iters (5%), 0..3 defines; non-trivial = distinct (input bytes, options) with at least one edit or a non-default "
         "option.  driver: 1..3 output groups over every format arm of driver.rs, print/named/derived outputs; non-trivial = distinct "
         "(input, argv).  fault: one permanent fault per case, every input file and every requested output of the chosen commands.  "
-        "real: exit status, signal, stderr, stdout and the directory listing before/after of the real binary (10 s limit); "
+        "real: exit status, signal, stderr, stdout and the directory listing before/after of the real binary (10 s limit), incl. unwritable "
+        "stdout/stderr and non-UTF-8 arguments; "
         "inputs with bracket nesting > 200 or operator runs > 5000 are never generated and a stack overflow on one would be class c19.")
 
-THEOREMS = ["C03_ok_clean", "C03_err_loud", "C03_outcome_exclusive", "C03_driver", "C03_shape_refuted_pinned", "C03_shape_matches_source"]
-SCRATCH = os.path.join(vlib.CACHE, "c03")
+THEOREMS = ["C03_ok_clean", "C03_err_loud", "C03_assemble_glue_never_panics", "C03_outcome_exclusive", "C03_shape_matches_source",
+            "C03_source_shape_ok", "C03_driver", "C03_driver_bad_command", "C03_shape_refuted_pinned", "C03_driver_without_try_refuted"]
+SCRATCH = os.path.join(vlib.CACHE, "c03", "run%d" % os.getpid())      # one scratch tree per run: checks may run in parallel
 CORPUS = os.path.join(vlib.VERIF, "tools", "c03_corpus")
 
 
 def setup():
     """until the lead appends translate_c03.generate() to Gen/Generated.v: write Gen/GeneratedC03.v from the current source"""
     import translate_c03
-    os.makedirs(SCRATCH, exist_ok=True)
     path = os.path.join(vlib.COQ, "Gen", "GeneratedC03.v")
     gen_v = os.path.join(vlib.COQ, "Gen", "Generated.v")
     if os.path.exists(gen_v) and "assemble_shape" in open(gen_v).read():
@@ -226,6 +230,8 @@ def stream_library(chk, lim, bins, bases, known):
             if (d["status"], d["E"], d["out"], d["err"]) != (r["status"], r["E"], r["out"], r["err"]):
                 lim.add("profile-divergence", "debug and release builds disagree on %s (%s)" % (c["base"], "+".join(c["edits"])), rep)
             dist[d["status"]] += 1
+            if d.get("M") != d.get("E"):
+                dist["runs_with_non_error_toplevel_messages"] = dist.get("runs_with_non_error_toplevel_messages", 0) + 1
             if d["status"] == "err":
                 dist["errors_1" if d["E"] == "1" else "errors_2plus"] += 1
             for ch, key in (("a", "site_assert"), ("c", "site_converge"), ("u", "site_unused_define"), ("n", "site_no_match"), ("f", "site_failed_to_resolve")):
@@ -253,6 +259,14 @@ def build_driver_cases(chk, bases, lib_cases, lib_out, formats):
         c = lib_cases[i]
         text = c["files"][c["entry"]].decode("utf-8", "replace")
         cmd = g.gen_cmd(rng, formats, text, c["entry"])
+        if rng.chance(0.1) and "extra.asm" not in c["files"]:
+            # a second root file (or the same one twice: duplicate declarations)
+            fm = dict(c["files"])
+            second = rng.choice(["extra.asm", "extra.asm", c["entry"], "missing.asm"])
+            if second == "extra.asm":
+                fm["extra.asm"] = rng.choice([b"extra_label:\n#d8 0xee\n", b"#d8 0xee ; \xc3\xa9\n", b"", b"#assert 1 == 2\n", b"extra_label = 1\n"])
+            cmd.inputs = [c["entry"], second]
+            c = dict(c, files=fm, inline_all=c.get("inline_all"), mutated=c["entry"])
         cases.append(dict(c, cmd=cmd, faults=[], stream="driver"))
     # single permanent faults: valid programs (so that without the fault the run succeeds) x each input file x each output
     fr = chk.rng.fork("fault")
@@ -395,6 +409,51 @@ def real_faults(fr, case, root_is_root):
     return out
 
 
+def stdio_and_argv_jobs(rng, drv_cases, drv_out, quick):
+    """permanent faults of the standard streams (the `-p` output path, the progress lines, the diagnostics) and arguments
+    that are not valid UTF-8 (file names are byte strings on this platform)"""
+    jobs = []
+    ok = [i for i, c in enumerate(drv_cases) if c["stream"] == "fault" and not c["faults"] and on_disk(c) and drv_out[i].get("status") == "OK"]
+    n = 40 if quick else 300
+    for i in rng.shuffle(ok)[:n]:
+        c = drv_cases[i]
+        cmd = c["cmd"]
+        prints = any(gr["print"] for gr in cmd.groups)
+        for sink in ("full", "epipe"):
+            jobs.append((c, cmd, None, [], "stdio: stdout %s%s%s" % (sink, ", -p requested" if prints else "", ", quiet" if cmd.quiet else ""),
+                         rng.choice(["debug", "release"]), {"stdout": sink, "must_fail": prints}))
+    bad_i = [i for i, c in enumerate(drv_cases) if c["stream"] == "driver" and on_disk(c) and drv_out[i].get("status") == "ERR" and not c["cmd"].debug_iters]
+    for i in rng.shuffle(bad_i)[:n // 2]:
+        c = drv_cases[i]
+        jobs.append((c, c["cmd"], None, [], "stdio: stderr full on a failing run", rng.choice(["debug", "release"]), {"stderr": "full"}))
+    for i in rng.shuffle(ok)[:n // 2]:
+        c = drv_cases[i]
+        for variant in ("input", "output", "define", "format"):
+            cmd = g.Cmd()
+            base = c["cmd"]
+            entry = c["entry"].encode("utf-8")
+            prep = None
+            if variant == "input":
+                name = b"in\xff_" + entry.replace(b"/", b"_")
+                argv = [b"customasm", name, b"-q"]
+
+                def prep(root, name=name, src=c["files"][c["entry"]]):
+                    with open(os.path.join(root.encode(), name), "wb") as f:
+                        f.write(src)
+            elif variant == "output":
+                argv = [b"customasm", entry, b"-q", b"--output=out\xff.bin"]
+            elif variant == "define":
+                argv = [b"customasm", entry, b"-q", b"-dX\xfe=1"]
+            else:
+                argv = [b"customasm", entry, b"-q", b"-f", b"hex\xffstr"]
+            cmd.argv = (lambda a: lambda: a)(argv)
+            cmd.quiet = True
+            cmd.expected_writes = (lambda v: lambda: ["out\udcff.bin"] if v == "output" else ["?"])(variant)
+            cmd.any_outcome = True
+            jobs.append((c, cmd, prep, [], "argv: %s not valid UTF-8" % variant, rng.choice(["debug", "release"]), {"argv": variant}))
+    return jobs
+
+
 def stream_real(chk, lim, real, drv_cases, drv_out, corpus_cases, known):
     quick = chk.tier == "quick"
     rng = chk.rng.fork("real")
@@ -402,10 +461,11 @@ def stream_real(chk, lim, real, drv_cases, drv_out, corpus_cases, known):
     chk.cov["real_binary_runs_as_root"] = root_is_root
     n_plain = 1000 if quick else 9000
     n_fault_bases = 60 if quick else 500
-    jobs = []      # (case, cmd, prepare, unwritable, what, profile)
+    jobs = []      # (case, cmd, prepare, unwritable, what, profile[, io])
     for c in corpus_cases:
         for prof in ("debug", "release"):
             jobs.append((c, c["cmd"], None, [], "corpus", prof))
+    jobs += stdio_and_argv_jobs(rng, drv_cases, drv_out, quick)
     usable = [i for i, c in enumerate(drv_cases) if c["stream"] == "driver" and on_disk(c) and not c["cmd"].debug_iters]
     for i in rng.shuffle(usable)[:n_plain]:
         jobs.append((drv_cases[i], drv_cases[i]["cmd"], None, [], "plain", rng.choice(["debug", "release"])))
@@ -415,19 +475,26 @@ def stream_real(chk, lim, real, drv_cases, drv_out, corpus_cases, known):
             jobs.append((drv_cases[i], cmd2, prep, unw, "fault: " + what, rng.choice(["debug", "release"])))
 
     def work(k):
-        c, cmd, prep, unw, what, prof = jobs[k]
-        return g.run_real(real[prof], cmd.argv(), os.path.join(SCRATCH, "run_%d" % k), c["files"], prepare=prep)
+        c, cmd, prep, unw, what, prof = jobs[k][:6]
+        io = jobs[k][6] if len(jobs[k]) > 6 else {}
+        return g.run_real(real[prof], cmd.argv(), os.path.join(SCRATCH, "run_%d" % k), c["files"], prepare=prep,
+                          stdout_to=io.get("stdout"), stderr_to=io.get("stderr"))
     with ThreadPoolExecutor(vlib.NCPU) as ex:
         results = list(ex.map(work, range(len(jobs))))
-    dist = {"exit0": 0, "exit1": 0, "abnormal": 0, "corpus": 0, "plain": 0, "fault": 0, "fault_made_it_fail": 0, "c19_class": 0}
-    for k, ((c, cmd, prep, unw, what, prof), res) in enumerate(zip(jobs, results)):
+    dist = {"exit0": 0, "exit1": 0, "abnormal": 0, "corpus": 0, "plain": 0, "fault": 0, "stdio": 0, "argv": 0, "fault_made_it_fail": 0, "c19_class": 0}
+    for k, (job, res) in enumerate(zip(jobs, results)):
+        c, cmd, prep, unw, what, prof = job[:6]
+        io = job[6] if len(job) > 6 else {}
         dist[what.split(":")[0]] += 1
-        bad = g.verdict_real(res, cmd, unwritable=unw)
+        bad = g.verdict_real(res, cmd, unwritable=unw, stdout_lost=bool(io.get("stdout")), stderr_lost=bool(io.get("stderr")))
+        if not bad and io.get("must_fail") and res["rc"] == 0:
+            bad = "the requested printout cannot be written (%s), yet exit status 0" % io.get("stdout")
         if not bad and unw and res["rc"] == 0:
             bad = "requested output %r cannot be written, yet exit status 0" % (unw,)
         if not bad and what == "corpus" and c.get("expect") in ("ok", "err") and (res["rc"] == 0) != (c["expect"] == "ok"):
             bad = "directed input %s: exit status %s, expected %s" % (c["base"], res["rc"], c["expect"])
-        rep = dict(small_replay(c), kind="real", stream="real", argv=cmd.argv(), expected_writes=cmd.expected_writes(), fault=what, profile=prof,
+        argv_shown = [a if isinstance(a, str) else "bytes:" + a.hex() for a in cmd.argv()]
+        rep = dict(small_replay(c), kind="real", stream="real", argv=argv_shown, expected_writes=cmd.expected_writes(), fault=what, profile=prof, io=io,
                    exit=res["rc"], stderr=res["stderr"].decode("utf-8", "replace")[:600], stdout=res["stdout"].decode("utf-8", "replace")[:300],
                    created=res["created"], modified=res["modified"])
         if bad:
@@ -436,17 +503,21 @@ def stream_real(chk, lim, real, drv_cases, drv_out, corpus_cases, known):
                 dist["c19_class"] += 1
                 continue
             kn = known_class(c, bad, known)
+            if not kn and what.startswith("argv") and "panic" in bad and "env.rs" in bad:
+                kn = known.get("non_utf8_command_line_argument")
+            if not kn and what.startswith("stdio") and ("panic" in bad or "exit status 101" in bad):
+                kn = known.get("standard_stream_unwritable")
             if kn:
                 chk.known(kn["id"], "%s (real binary, %s): %s" % (kn["class"], prof, bad))
                 continue
-            lim.add("real:" + re.sub(r"\d+|[`'\"\[(].*", "", bad)[:50], "customasm(%s) %r [%s] on %s: %s" % (prof, cmd.argv()[1:], what, c["base"], bad), rep)
+            lim.add("real:" + what.split(":")[0] + ":" + re.sub(r"\d+|[`'\"\[(].*", "", bad)[:50], "customasm(%s) %r [%s] on %s: %s" % (prof, argv_shown[1:], what, c["base"], bad), rep)
         else:
             dist["exit%d" % res["rc"]] += 1
             if what.startswith("fault") and res["rc"] == 1:
                 dist["fault_made_it_fail"] += 1
             chk.nontriv(("real", k))
         if k % 400 == 3:
-            chk.sample({"stream": "real", "what": what, "argv": cmd.argv(), "exit": res["rc"], "created": res["created"]})
+            chk.sample({"stream": "real", "what": what, "argv": argv_shown, "exit": res["rc"], "created": res["created"]})
     chk.count("real", len(jobs), **dist)
     return len(jobs)
 
@@ -586,8 +657,18 @@ def replay(chk, rep):
     else:
         real = vlib.customasm_build(("debug", "release"))
         prof = r.get("profile", "debug")
-        print("fault set-up (not re-applied by the replay): %s" % r.get("fault"))
-        res = g.run_real(real[prof], r["argv"], os.path.join(SCRATCH, "replay"), files)
-        print("argv: %r\nnow: exit %s created %r modified %r\nstderr: %s\nrecorded: exit %s created %r" % (
-            r["argv"], res["rc"], res["created"], res["modified"], res["stderr"].decode("utf-8", "replace")[:600], r.get("exit"), r.get("created")))
+        io = r.get("io") or {}
+        argv = [bytes.fromhex(a[6:]) if a.startswith("bytes:") else a for a in r["argv"]]
+        prep = None
+        if io.get("argv") == "input":
+            def prep(root):
+                with open(os.path.join(root.encode(), argv[1]), "wb") as f:
+                    f.write(files[r["entry"]])
+        elif r.get("fault", "").startswith("fault"):
+            print("fault set-up (NOT re-applied by the replay; re-create it by hand): %s" % r.get("fault"))
+        res = g.run_real(real[prof], argv, os.path.join(SCRATCH, "replay"), files, prepare=prep, stdout_to=io.get("stdout"), stderr_to=io.get("stderr"))
+        print("argv: %r  standard streams: %r\nnow: exit %s created %r modified %r\nstderr: %s\nrecorded: exit %s created %r" % (
+            r["argv"], {k: v for k, v in io.items() if k in ("stdout", "stderr")}, res["rc"], res["created"], res["modified"],
+            res["stderr"].decode("utf-8", "replace")[:600], r.get("exit"), r.get("created")))
+    shutil.rmtree(SCRATCH, ignore_errors=True)
     return 0
